@@ -86,6 +86,7 @@ func run(c *vf.Ctx) {
 		w.fullDataBlock()
 		w.assignAfterDecode()
 		w.libraryOffsetConvention(c)
+		w.libraryPadConvention()
 		atomic.AddInt64(&rejected, w.rejected)
 		mu.Lock()
 		if w.sample != nil && len(samples) < 200 {
@@ -214,6 +215,86 @@ func (w *worker) libraryOffsetConvention(c *vf.Ctx) {
 		}
 		if _, err := smbgen.Enumerate(cmd, w.lat, full, bound, c.DeadlineExceeded, eval); err != nil {
 			smbgen.Fatalf(c, "explore %s (library offset convention): %v", cmd.Name, err)
+		}
+	}
+}
+
+// libraryPadConvention: three AndX structures (both session setups, the tree connect request) carry a Pad that
+// MS-CIFS emits only in front of Unicode strings; the reference model uses OEM strings and therefore never builds
+// one. The decoder of SessionSetupAndxResponse takes exactly ONE pad byte whatever the strings are (known finding):
+// with MS-CIFS inputs every field of its data block is a known mismatch, so a further defect in that decoder would
+// be invisible. With a pad of exactly one byte - which is what the library itself and its callers send - the
+// data block does come back today (the two request structures do not decode under this convention either: their
+// decoders take no pad at all and shift the parameter words; they stay with the ordinary lattice): every field is checked again with Pad = one byte of each value a decoder
+// could mistake for something else (0x00, a buffer-format byte 0x01..0x05, '/', '\', 0xFF), from the zero and
+// the full base, each other free field deviated in turn, under keys of their own (libpad/...). What still fails
+// there for the known reasons (the AndX words are not skipped) is listed in findings/C04.json per key.
+func (w *worker) libraryPadConvention() {
+	cmd := w.cmd
+	var pad *refsmb.Field
+	for _, f := range cmd.Fields {
+		if f.Name == "Pad" && f.Rel != nil && f.Rel.Kind == refsmb.REmpty && f.Kind == refsmb.KBytes {
+			pad = f
+		}
+	}
+	if pad == nil || cmd.Name != "SessionSetupAndxResponse" {
+		return
+	}
+	for _, full := range []bool{false, true} {
+		a0 := cmd.Zero(w.lat)
+		if full {
+			a0 = cmd.FullAssign(w.lat)
+		}
+		var assigns []*refsmb.Assign
+		assigns = append(assigns, a0)
+		for _, f := range cmd.Fields {
+			if !f.Free() || f == pad {
+				continue
+			}
+			for k := 1; k <= len(w.lat[f.Pos]); k++ {
+				assigns = append(assigns, a0.With(f.Pos, k))
+			}
+		}
+		for _, a := range assigns {
+			if a.Dev[pad.Pos] > 0 {
+				continue
+			}
+			for _, pv := range []byte{0x00, 0x01, 0x02, 0x04, 0x05, 0x2F, 0x5C, 0xFF} {
+				build := func() command_interface.CommandInterface {
+					x, err := a.Build()
+					if err != nil {
+						return nil
+					}
+					smbgen.Field(x, pad).SetBytes([]byte{pv})
+					return x
+				}
+				x := build()
+				if x == nil {
+					continue
+				}
+				want := build()
+				label := fmt.Sprintf("%s Pad:=%02x [one pad byte]", a.Label(), pv)
+				w.c.Case([]byte(cmd.Name), []byte(label))
+				b, merr, pan, _ := smbgen.Marshal(x)
+				if !w.check(w.key("libpad/marshal"), merr == nil && !pan, func() string {
+					return fmt.Sprintf("%s{%s}.Marshal() fails: %v", cmd.Name, label, merr)
+				}) {
+					continue
+				}
+				d := cmd.New()
+				uerr, up, uwhere := smbgen.Unmarshal(d, b)
+				if !w.check(w.key("libpad/unmarshal"), uerr == nil && !up, func() string {
+					return fmt.Sprintf("%s.Unmarshal(%s) = %v (panic=%v %s); input = own Marshal of {%s}", cmd.Name, vf.HexS(b), uerr, up, uwhere, label)
+				}) {
+					continue
+				}
+				for _, f := range cmd.Fields {
+					wv, gv := smbgen.Field(want, f), smbgen.Field(d, f)
+					w.check(w.key("libpad/field:"+f.Name+"/roundtrip"), cmd.FieldEqual(f, wv, gv), func() string {
+						return fmt.Sprintf("%s{%s}: field %s = %s, after Marshal -> %s -> Unmarshal into a fresh structure it is %s", cmd.Name, label, f.Name, cmd.FieldString(f, wv), vf.HexS(b), cmd.FieldString(f, gv))
+					})
+				}
+			}
 		}
 	}
 }
